@@ -3,8 +3,9 @@ package main
 // Symbolic execution of the typed Go AST: expressions.
 // Integer semantics (see DESIGN.md section 2.3): every Go integer is an SMT Int constrained to the
 // range of its type.  8/16/32-bit arithmetic is wrapped exactly (mod 2^w); 64-bit arithmetic
-// (int, uint, int64, uint64) generates a no-overflow OBLIGATION and then uses the exact result, so
-// a 64-bit overflow anywhere in verified code fails the check instead of being ignored.
+// SIGNED 64-bit arithmetic (int, int64) generates a no-overflow OBLIGATION and then uses the exact
+// result, so a signed 64-bit overflow anywhere in verified code fails the check instead of being
+// ignored; unsigned 64-bit arithmetic wraps exactly (polyChallenge relies on 1-2*1 wrapping in uint64).
 
 import (
 	"bytes"
@@ -80,6 +81,8 @@ type FCtx struct {
 	nooverflow bool
 	globals  map[types.Object]int
 	oblSeen  map[string]int
+	pow2Of   map[*Term]*Term // term -> s when the term is 1<<s (variable s)
+	maskOf   map[*Term]*Term // term -> s when the term is (1<<s)-1
 	inputs   map[string]*Term
 	curSig   *types.Signature
 	curFI    *FuncInfo
@@ -665,7 +668,7 @@ func (c *FCtx) evalGuarded(st, sub *State, e ast.Expr, guard *Term) Val {
 		st.assume(Implies(guard, h))
 	}
 	for k := range sub.written {
-		if !st.written[k] {
+		if _, existed := st.cells[k]; existed && !st.written[k] {
 			fail("side effect in right operand of && / ||")
 		}
 	}
@@ -796,7 +799,7 @@ func (c *FCtx) arith(st *State, op token.Token, l, r *Term, t types.Type, e ast.
 		if raw.IsNum() {
 			return wrapTo(raw, k)
 		}
-		if k.bits == 64 || c.nooverflow {
+		if k.bits == 64 && k.signed || c.nooverflow {
 			c.oblige(st, "safety", "overflow "+c.exprStr(e), rangeFact(raw, k), c.eng.pos(e))
 			st.assume(rangeFact(raw, k))
 			return raw
@@ -807,6 +810,11 @@ func (c *FCtx) arith(st *State, op token.Token, l, r *Term, t types.Type, e ast.
 	case token.ADD:
 		return finish(Add(l, r))
 	case token.SUB:
+		if s, ok := c.pow2Of[l]; ok && r.IsNum() && r.Num.Cmp(big.NewInt(1)) == 0 {
+			res := finish(Sub(l, r))
+			c.maskOf[res] = s
+			return res
+		}
 		return finish(Sub(l, r))
 	case token.MUL:
 		return finish(Mul(l, r))
@@ -887,6 +895,14 @@ func (c *FCtx) bitAnd(st *State, l, r *Term, k intKind) *Term {
 		if r.Num.Cmp(big.NewInt(-1)) == 0 {
 			return l
 		}
+	}
+	if s, ok := c.maskOf[r]; ok {
+		// x & ((1<<s)-1) = x mod 2^s for 0 <= s < bits (two's complement), case split over s
+		res := l
+		for i := int(k.bits) - 1; i >= 0; i-- {
+			res = Ite(Eq(s, Num(int64(i))), Mod(l, Pow2(uint(i))), res)
+		}
+		return res
 	}
 	// general case: uninterpreted, with sound facts about two's complement AND
 	res := App("band", SInt, l, r)
@@ -997,6 +1013,9 @@ func (c *FCtx) shift(st *State, op token.Token, l, r *Term, t, rt types.Type, e 
 	res := one(k.bits)
 	for s := int(k.bits) - 1; s >= 0; s-- {
 		res = Ite(Eq(r, Num(int64(s))), one(uint(s)), res)
+	}
+	if op == token.SHL && l.IsNum() && l.Num.Cmp(big.NewInt(1)) == 0 {
+		c.pow2Of[res] = r
 	}
 	return res
 }
